@@ -75,3 +75,13 @@ func Table(n int) []func(int8) int8 {
 	shift := func(i int8) int8 { return neg(i) + int8(n) }
 	return []func(int8) int8{neg, shift}
 }
+
+func Local(a, b int8) int8 {
+	abs := func(v int8) int8 {
+		if v < 0 {
+			return -v
+		}
+		return v + b - b
+	}
+	return abs(a) + abs(b)
+}
